@@ -350,8 +350,7 @@ public:
     //! lexicographically
     bool operator<(const StringView& other) const noexcept
     {
-        return std::lexicographical_compare(ptr_, ptr_ + size_, other.ptr_,
-                                            other.ptr_ + other.size_);
+        return compare(other) < 0;
     }
 
     //! Greater than
@@ -667,14 +666,14 @@ static inline bool operator!=(const std::string& a,
 //! lexicographically
 static inline bool operator<(const StringView& a, const std::string& b) noexcept
 {
-    return std::lexicographical_compare(a.begin(), a.end(), b.begin(), b.end());
+    return a.compare(StringView(b)) < 0;
 }
 
 //! less operator to compare a StringView with a std::string
 //! lexicographically
 static inline bool operator<(const std::string& a, const StringView& b) noexcept
 {
-    return std::lexicographical_compare(a.begin(), a.end(), b.begin(), b.end());
+    return StringView(a).compare(b) < 0;
 }
 
 static inline bool operator>(const StringView& x, const std::string& y) noexcept
